@@ -81,7 +81,9 @@ def _escape_of(out):
         return {"o": "escape", "cls": out.get("name") or "Error"}
     if o == "host":
         return {"o": "escape", "cls": out.get("type", "host")}
-    return {"o": o, "cls": o}                      # timelimit / memlimit / hang: never expected
+    # timelimit / memlimit / hang: one JSON call is a few host operations; under a loaded machine the
+    # watchdogs are the only way to get here, which says nothing about the engine (machinery failure)
+    raise RuntimeError("watchdog outcome %r on a JSON call" % (out,))
 
 
 class _Builder:
@@ -195,7 +197,7 @@ def _same_shape(a, b):
 
 
 def c19_driver(case, api):
-    ctx = api.new_context(time_limit=case.get("time_limit", 10.0))
+    ctx = api.new_context(time_limit=case.get("time_limit", 120.0))
     got = {}
 
     def out_fn(name, *a):
@@ -213,7 +215,7 @@ def c19_driver(case, api):
         for i, key in enumerate(b.keys):
             ctx.set("__k%d" % i, key)
         src = _PRELUDE + patch_js + _STR_TAIL
-    ev = api.eval_outcome(ctx, src, wall=case.get("wall", 20.0), cap=case.get("cap", 2_000_000))
+    ev = api.eval_outcome(ctx, src, wall=case.get("wall", 240.0), cap=case.get("cap", 2_000_000))
     if "start" not in got:
         raise RuntimeError("driver script did not run: %r" % (ev,))
     res = {"id": case["id"], "rt": {"o": "none"}, "protos": True}
